@@ -17,6 +17,7 @@ func c07(args []string) int {
 	framesStreams(run, ss, "c07", true, run.N(40, 400), true)
 	framesStreams(run, ss, "c07m", false, run.N(40, 400), true)
 	framesPreface(run, ss)
+	framesPaddedBoundaries(run, ss)
 	hpackEveryCut(run, ss, run.N(25, 300))
 	c07Dispatch(run, run.N(25, 250))
 	ss.close()
